@@ -9,11 +9,13 @@
   crates/anstream/src/stream.rs        the IsTerminal impls, classified: constant `false`,
                                        is_terminal_polyfill (isatty of the descriptor), forwarding
 
-The whole body of every probe is matched against the shape the hand model
-(coq/Model/Choice.v) transcribes, so a probe whose logic changes is a GEN-ERROR
-(broken tie), not a silently different program.  The if/else chain of
-anstream::auto::choice is NOT translated: it is modelled by hand and tied by the
-exhaustive correspondence run.
+This generator writes the DATA the hand model (coq/Model/Choice.v) is parametrised by.  The
+LOGIC of the probes, of the plumbing around the global atomic, of Color::write_global and the
+if/else chain of anstream::auto::choice is tied by the function translator
+(tools/gen_fn_choice.py -> Generated/ChoiceFn.v; Proofs/ChoiceGen.v proves every translated
+body equal to the hand model over these constants), which replaced the whole-body regex pins
+this file used to carry for them.  Still shape-checked here: the #[cfg] split of
+term_supports_color, the arm tables of from_choice / to_choice / as_choice, the IsTerminal impls.
 
 Hooked into tools/gen_model.py through `register`.
 """
@@ -77,12 +79,6 @@ def register(generators, gm):
     def coq_bytes_def(name, bs, comment):
         return "Definition %s : list N := %s.   (* %s *)" % (name, gm.coq_bytes(bs), comment)
 
-    def shape(body, pattern, what):
-        m = re.fullmatch(pattern, body)
-        if not m:
-            raise GenError("%s: body not of the expected shape: %r" % (what, body[:160]))
-        return m
-
     STR = r'"((?:[^"\\]|\\.)*)"'
 
     def cfg_split(body, what):
@@ -100,6 +96,28 @@ def register(generators, gm):
         return a, b
 
     # ------------------------------------------------------------------ probes
+    # The LOGIC of every probe is tied by translation (tools/gen_fn_choice.py -> Generated/ChoiceFn.v,
+    # Proofs/ChoiceGen.v: each translated body equals the hand model over these very constants), so the
+    # bodies are no longer shape-pinned here; what is read off is only the data the hand model is
+    # parametrised by: the variable NAME a probe passes to std::env::var_os and the string literals it
+    # compares the value with.
+    def var_name(body, what):
+        names = set(re.findall(r"std::env::var_os\(%s\)" % STR, body))
+        if len(names) != 1:
+            raise GenError("%s: expected exactly one variable name passed to std::env::var_os, found %r" % (what, sorted(names)))
+        return lit(names.pop(), "name in " + what)
+
+    def cmp_lits(body, what):
+        lits = [m[1] for m in re.findall(r"(==|!=)%s" % STR, body)]
+        if not lits:
+            raise GenError("%s: no comparison with a string literal found" % what)
+        return [lit(x, "literal in " + what) for x in lits]
+
+    def one(l, what):
+        if len(l) != 1:
+            raise GenError("%s: expected exactly one string literal compared with, found %d" % (what, len(l)))
+        return l[0]
+
     def probes():
         rel = "crates/anstyle-query/src/lib.rs"
         src = gm.strip_comments(gm.read(rel))
@@ -108,30 +126,18 @@ def register(generators, gm):
             src = src[:tm.start()]
         out = {}
         b = fn_body(src, r"pub fn clicolor\(\)\s*->\s*Option<bool>", "clicolor")
-        m = shape(b, r'letvalue=std::env::var_os\(%s\)\?;Some\(value!=%s\)' % (STR, STR), "clicolor")
-        out["clicolor"] = (lit(m.group(1), "name in clicolor"), lit(m.group(2), "literal in clicolor"))
+        out["clicolor"] = (var_name(b, "clicolor"), one(cmp_lits(b, "clicolor"), "clicolor"))
         for fn in ("clicolor_force", "no_color"):
             b = fn_body(src, r"pub fn %s\(\)\s*->\s*bool" % fn, fn)
-            m = shape(b, r'non_empty\(std::env::var_os\(%s\)\.as_deref\(\)\)' % STR, fn)
-            out[fn] = lit(m.group(1), "name in " + fn)
-        b = fn_body(src, r"fn non_empty\(var:\s*Option<&std::ffi::OsStr>\)\s*->\s*bool", "non_empty")
-        shape(b, r"!var\.unwrap_or_default\(\)\.is_empty\(\)", "non_empty")
+            out[fn] = var_name(b, fn)
         b = fn_body(src, r"pub fn term_supports_color\(\)\s*->\s*bool", "term_supports_color")
         unix, _win = cfg_split(b, "term_supports_color")
-        m = shape(unix, r'matchstd::env::var_os\(%s\)\{None=>returnfalse,Some\(k\)=>\{ifk==%s\{returnfalse;\}\}\}true' % (STR, STR),
-                  "term_supports_color (non-Windows block)")
-        out["term"] = (lit(m.group(1), "name in term_supports_color"), lit(m.group(2), "literal in term_supports_color"))
-        b = fn_body(src, r"pub fn term_supports_ansi_color\(\)\s*->\s*bool", "term_supports_ansi_color")
-        unix, _win = cfg_split(b, "term_supports_ansi_color")
-        shape(unix, r"term_supports_color\(\)", "term_supports_ansi_color (non-Windows block)")
+        out["term"] = (var_name(unix, "term_supports_color (non-Windows block)"),
+                       one(cmp_lits(unix, "term_supports_color (non-Windows block)"), "term_supports_color (non-Windows block)"))
         b = fn_body(src, r"pub fn truecolor\(\)\s*->\s*bool", "truecolor")
-        m = shape(b, r'letvalue=std::env::var_os\(%s\);letvalue=value\.as_deref\(\)\.unwrap_or_default\(\);(value==%s(?:\|\|value==%s)*)' % (STR, STR, STR),
-                  "truecolor")
-        lits = [lit(x, "literal in truecolor") for x in re.findall(r"value==" + STR, m.group(2))]
-        out["truecolor"] = (lit(m.group(1), "name in truecolor"), lits)
+        out["truecolor"] = (var_name(b, "truecolor"), cmp_lits(b, "truecolor"))
         b = fn_body(src, r"pub fn is_ci\(\)\s*->\s*bool", "is_ci")
-        m = shape(b, r'std::env::var_os\(%s\)\.is_some\(\)' % STR, "is_ci")
-        out["is_ci"] = lit(m.group(1), "name in is_ci")
+        out["is_ci"] = var_name(b, "is_ci")
         return rel, out
 
     # ------------------------------------------------------------- colorchoice
@@ -197,22 +203,14 @@ def register(generators, gm):
             to_arms.append((k, mm.group(1)))
         if not wildcard:
             raise GenError("to_choice: no wildcard arm")
-        # the plumbing between the public functions and the atomic
+        # the plumbing between the public functions and the atomic (AtomicChoice::new / get / set, `static USER`,
+        # ColorChoice::global / write_global) is TRANSLATED (tools/gen_fn_choice.py); read off here is only the
+        # initial value, which the hand model is parametrised by
         b = fn_body(src, r"pub\(crate\) const fn new\(\)\s*->\s*Self", "AtomicChoice::new")
-        m = shape(b, r"Self\(AtomicUsize::new\(Self::from_choice\(ColorChoice::(\w+)\)\)\)", "AtomicChoice::new")
-        if m.group(1) not in CHOICES:
-            raise GenError("AtomicChoice::new: unknown initial value %s" % m.group(1))
-        initial = m.group(1)
-        b = fn_body(src, r"pub\(crate\) fn get\(&self\)\s*->\s*ColorChoice", "AtomicChoice::get")
-        shape(b, r'letchoice=self\.0\.load\(Ordering::SeqCst\);Self::to_choice\(choice\)\.expect\("[^"]*"\)', "AtomicChoice::get")
-        b = fn_body(src, r"pub\(crate\) fn set\(&self,\s*choice:\s*ColorChoice\)", "AtomicChoice::set")
-        shape(b, r"letchoice=Self::from_choice\(choice\);self\.0\.store\(choice,Ordering::SeqCst\);", "AtomicChoice::set")
-        b = fn_body(src, r"pub fn global\(\)\s*->\s*Self", "ColorChoice::global")
-        shape(b, r"USER\.get\(\)", "ColorChoice::global")
-        b = fn_body(src, r"pub fn write_global\(self\)", "ColorChoice::write_global")
-        shape(b, r"USER\.set\(self\);", "ColorChoice::write_global")
-        if not re.search(r"static USER:\s*AtomicChoice\s*=\s*AtomicChoice::new\(\);", src):
-            raise GenError("static USER: AtomicChoice = AtomicChoice::new(); not found")
+        inits = re.findall(r"from_choice\(ColorChoice::(\w+)\)", b)
+        if len(inits) != 1 or inits[0] not in CHOICES:
+            raise GenError("AtomicChoice::new: expected one `from_choice(ColorChoice::X)`, found %r" % inits)
+        initial = inits[0]
         return rel, from_arms, to_arms, initial
 
     # -------------------------------------------------------- colorchoice-clap
@@ -242,8 +240,7 @@ def register(generators, gm):
             arms[ma.group(1)] = mv.group(1)
         if sorted(arms) != sorted(FLAGS):
             raise GenError("as_choice: arms %r do not cover the three flag values" % sorted(arms))
-        b = fn_body(src, r"pub fn write_global\(&self\)", "Color::write_global")
-        shape(b, r"self\.as_choice\(\)\.write_global\(\);", "Color::write_global")
+        # Color::write_global is translated (tools/gen_fn_choice.py)
         return rel, arms
 
     # ------------------------------------------------------------ IsTerminal
